@@ -73,6 +73,11 @@ def gen(r, quick):
         for u in libs:
             if s not in u["defs"] and solid and r.random() < 0.4:
                 u["refs"][s] = dict(weak=False)
+    # a name defined in a lazily loaded member and in another file of the executable makes the member set
+    # order-sensitive (C03's subject, and ld/lld differ there): load such members unconditionally
+    for u in units:
+        if u["kind"] == "mem" and not u["forced"] and any(nm in o["defs"] for nm in u["defs"] for o in exe_units if o is not u):
+            u["forced"] = True
     kind = r.choice(["nopie", "pie"]) if libs else r.choice(["nopie", "pie", "static"])
     order = [u["idx"] for u in units if u["kind"] != "mem"] + ["M"]
     r.shuffle(order)
@@ -325,7 +330,7 @@ def relocatable_case(ctx, ci, r, forced=None):
             u = case["units"][uidx]
             role = "definer" if nm in u["defs"] else ("weak-ref" if u["refs"][nm]["weak"] else "ref")
             where = "inside" if uidx in inside else "outside"
-            sigs.setdefault(f"relocatable:bind:{role}:{name_class(nm)}:{where}-r:ld={describe_tag(case, tl.get(label, 0)).split('@')[0]}:"
+            sigs.setdefault(f"relocatable:bind:{name_class(nm)}:{where}-r:ld={describe_tag(case, tl.get(label, 0)).split('@')[0]}:"
                             f"wild={describe_tag(case, tw.get(label, 0)).split('@')[0]}", label)
     for sig, label in sigs.items():
         LIM.violation(sig, f"{label}: after ld -r --wrap + final link prints {tl.get(label)}, after wild -r --wrap prints {tw.get(label)}",
